@@ -398,6 +398,15 @@ def joined_is_collinear(ck, rule):
         w = where(fn, cr)
         construct = "AlignmentResultRow.resolve:joined-record:collinear"
         if isinstance(par, ast.Return):
+            # the test may sit in the caller (AlignmentResults.resolve judging what it got back): then this rule does not decide
+            res_cls = p.find_class("AlignmentResults")
+            caller = res_cls.methods.get("resolve") if res_cls else None
+            helpers = {m0.name for m0 in row.methods.values() if m0 is not fn and monotone_test(m0)}
+            from ..loader import mangle as _mg0
+            if caller is not None and any(isinstance(y, ast.Attribute) and (_mg0(y.attr, row.name) in helpers or y.attr in helpers)
+                                          for y in ast.walk(caller.node)):
+                raise AnalysisError(f"{w}: the joined record is handed back untested here, but {short(caller)} applies a pair-by-pair test "
+                                    "of the row class - whether every joined record passes through it is not decided by this rule")
             ck.violation(rule, construct, w,
                          "the joined record is handed back as it is built: nothing on the way from 'same orientation, same reference, close "
                          "on the reference' to the record compares the parts' order in the query - a part that lies BEFORE the other on the "
